@@ -97,6 +97,30 @@ fn readout(dir: &Path, cfg: &TreeCfg, keys: &[Vec<u8>], seqs: &[SeqNo]) -> Strin
     }
 }
 
+/// Runs the read-out in a forked child so that a process abort (e.g. an allocation of a
+/// corrupted, absurd length) is observed as an outcome instead of killing the enumeration.
+fn readout_isolated(dir: &Path, cfg: &TreeCfg, keys: &[Vec<u8>], seqs: &[SeqNo], tmp: &Path) -> String {
+    let _ = std::fs::remove_file(tmp);
+    // SAFETY: plain fork/waitpid; the child only runs the read-out and exits
+    unsafe {
+        let pid = libc::fork();
+        if pid == 0 {
+            // cap the address space so that absurd allocations fail fast
+            let lim = libc::rlimit { rlim_cur: 4 << 30, rlim_max: 4 << 30 };
+            libc::setrlimit(libc::RLIMIT_AS, &lim);
+            let r = readout(dir, cfg, keys, seqs);
+            let _ = std::fs::write(tmp, r);
+            libc::_exit(0);
+        }
+        let mut status: libc::c_int = 0;
+        libc::waitpid(pid, &mut status, 0);
+        if libc::WIFSIGNALED(status) {
+            return format!("ABORT signal={}", libc::WTERMSIG(status));
+        }
+    }
+    std::fs::read_to_string(tmp).unwrap_or_else(|_| "ABORT no-result".to_string())
+}
+
 fn file_kind(rel: &Path) -> &'static str {
     let s = rel.to_string_lossy();
     if s.starts_with("tables/") {
@@ -209,13 +233,13 @@ pub fn run(seed: u64, scratch: &Path, blob: bool, exhaustive: bool, samples: u64
                 c[off] = nb;
             }
             std::fs::write(work.join(rel), &c).expect("write");
-            let r = readout(&work, &h.cfg, &keys, &seqs);
+            let r = readout_isolated(&work, &h.cfg, &keys, &seqs, &scratch.join("result.txt"));
             total += 1;
             let class = if r == baseline {
                 "identical"
             } else if r.starts_with("ERR") {
                 "error"
-            } else if r.starts_with("PANIC") {
+            } else if r.starts_with("PANIC") || r.starts_with("ABORT") {
                 "panic"
             } else {
                 "DIFFERENT"
